@@ -1,5 +1,6 @@
 import DaeVerif.C06.Model
 import DaeVerif.C06.Spec
+import DaeVerif.C06.Family
 import DaeVerif.Common.Proto
 /-! Line-protocol driver for C06 (op grammar: harness/overlay/component/sniffing/c06_test.go). -/
 open DaeVerif DaeVerif.C06 DaeVerif.Proto
@@ -237,6 +238,36 @@ def handle (line : String) : String :=
         if l = [] then "-" else ",".intercalate (l.map fun b => s!"{b.length}:{fnv32 b}")
       " ".intercalate (outs.map step) ++ s!" held={f.withheld.length} dom={hx f.domain}"
     | _, _ => "bad-op"
+  | "fam" :: steps =>
+    -- one flow family through handlePkt: step = `<datagram>/<dial fails 0|1>/<seals|->`, seal =
+    -- `<start in datagram>:<pnOff>:<stop>:<dcid>:<plain>`.  Written datagrams of a step are listed in
+    -- a canonical order (stable by connection key: the order ACROSS sessions is Go map order).
+    let parseStep (t : String) : Option Dg :=
+      match t.splitOn "/" with
+      | [h, df, sl] => do
+        let d ← unhx h
+        let o ← parseOracle sl
+        pure { data := d, seals := o, dialFails := df == "1" }
+      | _ => none
+    match steps.mapM parseStep with
+    | some xs =>
+      let (outs, f) := Fam.run {} xs
+      -- diagnostic: the largest number of sessions holding datagrams at the same time
+      let maxHolding := (xs.foldl (fun (acc : Fam × Nat) x =>
+        let f1 := (acc.1.step x).1
+        (f1, max acc.2 ((f1.sessions.filter fun s => s.withheld ≠ []).length))) (({} : Fam), 0)).2
+      let keyStr (b : Bytes) : String := hx (dcidKey b)
+      let rec ins (x : Bytes) : List Bytes → List Bytes
+        | [] => [x]
+        | y :: ys => if keyStr x < keyStr y then x :: y :: ys else y :: ins x ys
+      let canonSort (l : List Bytes) : List Bytes := l.foldl (fun acc x => ins x acc) []
+      let step (l : List Bytes) : String :=
+        if l = [] then "-" else ",".intercalate ((canonSort l).map fun b => s!"{b.length}:{fnv32 b}")
+      let dom := match f.ue with
+        | some d => hx d
+        | none => "-"
+      " ".intercalate (outs.map fun o => step o.written) ++ s!" held={f.held.length} dom={dom} # dropped={(outs.map fun o => o.dropped.length).sum} failed={f.failed.length} sessions={f.sessions.length} holding={maxHolding}"
+    | none => "bad-op"
   | _ => "bad-op"
 
 def main : IO Unit := lineLoop handle
